@@ -3,6 +3,7 @@ import ZipVerif.Lemmas.FaultReader
 import ZipVerif.Lemmas.FaultAppend
 import ZipVerif.Lemmas.FaultVisit
 import ZipVerif.Lemmas.MRun
+import ZipVerif.Model.Interrupted
 import ZipVerif.Props.C05
 import ZipVerif.Props.C12
 /-
@@ -729,7 +730,8 @@ with them the seekable reader and the writer) treat a failure of EVERY kind as a
 `write_all` retry `Interrupted`: the model answers `Err(Interrupted)` where the code succeeds with one more I/O call
 (`fault.read … k=5 kind=interrupted` on `zip64Zero`: implementation `open=ok …  ncalls=52`, model
 `open=err:io:interrupted ncalls=6`).  Such faults are judged by the oracle alone on `fault.read` / `fault.write`;
-the streaming ops use `M.retried`. -/
+the streaming ops use `M.retried`; `Model/Interrupted.lean` has the seekable reader's parsers with std's convention
+(`open_interrupted_witness` below), not yet used by the driver. -/
 theorem interrupted_not_modelled_in_read_exact :
     errOf (M.readExact 4 (some 0) (Dev.ofBytesK [1, 2, 3, 4] .interrupted)).1 = some (.io .interrupted) ∧
     okOf (M.retried (M.readExact 4) (some 0) (Dev.ofBytesK [1, 2, 3, 4] .interrupted)).1 = some [1, 2, 3, 4] := by
@@ -933,5 +935,68 @@ theorem io_propagates {α β} (s : WState) (m : M α) (kont : α → M (Except Z
   unfold Model.io
   rw [M.bind_apply, M.attempt_apply, h]
   rfl
+
+/-! ### `Interrupted` on the seekable reader: the generic parsers at `MI`
+
+`Model/Interrupted.lean` instantiates the generic parsers (`G.openArchive`, `G.findContent`: the functions proved equal
+to the model's at `M`, `Lemmas/ShortRead`) at the monad `MI`, where `read_exact` / `read_to_end` are std's retry loops and
+`seek` is a bare call.  What is PROVED: the behaviour of the three loops (below).  What is only CHECKED (kernel, on the
+witness archive; by hand against the implementation on all 54 fault indices of `fault.read` on that archive): the
+composed `openArchiveI`.  NOT wired into the driver: an experiment doing so (entries read with a retrying `read_to_end`)
+disagreed with the harness on `fault.read` lines where the fault falls into the harness's own entry-reading loop, which
+does not retry - the consumer has to be modelled as the streaming ops do (`Consume`).  NOT proved:
+`openArchiveI = openArchive` on devices with hard failures in general (it needs one induction per parser, as
+`G.openArchive_M` did), and the fault calculus (`Clean` / `Tight` / `ErrOnFire`) for `MI`; the writer has no `MI`
+counterpart yet. -/
+
+/-- **`read_exact_interrupted`**: an `Interrupted` failure of a call `read_exact` makes is invisible - the failure-free
+result and device, one more call counted. -/
+theorem readExact_interrupted (n k : Nat) (d : Dev) (hi : d.fkind = .interrupted)
+    (hf : Fired k d (M.readExact n none d).2) :
+    MI.readExact n (some k) d =
+      ((M.readExact n none d).1, { (M.readExact n none d).2 with calls := (M.readExact n none d).2.calls + 1 }) :=
+  M.retried_interrupted _ k d hi hf
+
+/-- **`write_all_interrupted`**: the same for `write_all`. -/
+theorem writeAll_interrupted (bs : Bytes) (k : Nat) (d : Dev) (hi : d.fkind = .interrupted)
+    (hf : Fired k d (M.writeAll bs none d).2) :
+    MI.writeAll bs (some k) d =
+      ((M.writeAll bs none d).1, { (M.writeAll bs none d).2 with calls := (M.writeAll bs none d).2.calls + 1 }) :=
+  M.retried_interrupted _ k d hi hf
+
+/-- … and for a consumer draining a `Take` (`read_to_end`, `io::copy`). -/
+theorem takeAll_interrupted (limit k : Nat) (d : Dev) (hi : d.fkind = .interrupted)
+    (hf : Fired k d (takeAll limit none d).2) :
+    MI.takeAll limit (some k) d =
+      ((takeAll limit none d).1, { (takeAll limit none d).2 with calls := (takeAll limit none d).2.calls + 1 }) :=
+  M.retried_interrupted _ k d hi hf
+
+/-- On a device whose failures are hard ones the three loops are the model's. -/
+theorem retry_loops_hard_kinds (fa : Option Nat) (d : Dev) (hk : d.fkind ≠ .interrupted) :
+    (∀ n, MI.readExact n fa d = M.readExact n fa d) ∧ (∀ bs, MI.writeAll bs fa d = M.writeAll bs fa d) ∧
+    (∀ limit, MI.takeAll limit fa d = takeAll limit fa d) :=
+  ⟨fun _ => M.retried_hard _ fa d hk, fun _ => M.retried_hard _ fa d hk, fun _ => M.retried_hard _ fa d hk⟩
+
+example : Fired 0 (Dev.ofBytesK [1, 2, 3, 4] .interrupted) (M.readExact 4 none (Dev.ofBytesK [1, 2, 3, 4] .interrupted)).2 := by
+  decide
+
+/-- **`open_interrupted_witness`** (kernel-checked on `zip64Zero`, 49 I/O calls failure-free): on a device failing with
+`Interrupted`, `ZipArchive::new` with std's convention (`openArchiveI`) - for EVERY fault index inside the run -
+either succeeds with the failure-free entry list and one more call (the fault hit a call inside `read_exact`), or
+stops at the failing call with an error (the fault hit one of the bare `seek`s: calls 0, 1, 3, 4, 13, 18, 29, 30);
+call 5 - the witness of `interrupted_not_modelled_in_read_exact` - succeeds, as the implementation does; and on a
+device with hard failures it answers as `openArchive` does, at every index. -/
+theorem open_interrupted_witness :
+    (List.range 49).all (fun k =>
+      match openArchiveI (some k) (Dev.ofBytesK zip64Zero .interrupted) with
+      | (.ok a, d) => a.files.length == 1 && d.calls == 50 && !([0, 1, 3, 4, 13, 18, 29, 30].contains k)
+      | (.err _, d) => d.calls == k + 1 && [0, 1, 3, 4, 13, 18, 29, 30].contains k
+      | _ => false) = true ∧
+    C05.okEntries (openArchiveI (some 5) (Dev.ofBytesK zip64Zero .interrupted)).1 = some 1 ∧
+    (List.range 50).all (fun k =>
+      C05.okEntries (openArchiveI (some k) (Dev.ofBytes zip64Zero)).1 == C05.okEntries (openArchive (some k) (Dev.ofBytes zip64Zero)).1 &&
+      errOf (openArchiveI (some k) (Dev.ofBytes zip64Zero)).1 == errOf (openArchive (some k) (Dev.ofBytes zip64Zero)).1 &&
+      (openArchiveI (some k) (Dev.ofBytes zip64Zero)).2.calls == (openArchive (some k) (Dev.ofBytes zip64Zero)).2.calls) = true := by
+  refine ⟨by decide +kernel, by decide +kernel, by decide +kernel⟩
 
 end ZipVerif.Props.C11
